@@ -110,8 +110,24 @@ def run(index, tier="quick", seed=0) -> Result:
     pfn = index.cls("Polyhedron").lookup("is_inside")
     bad_order = None
     ncalls = 0
+    # the lexicographic tie-break helper, by structure: a nested 3-parameter function returning
+    # where(a != 0, a, where(b != 0, b, c)) - its name carries no meaning
+    tiebreak = set()
+    for d_ in _ast.walk(pfn.node):
+        if isinstance(d_, _ast.FunctionDef) and d_ is not pfn.node and len(d_.args.args) == 3:
+            rets_ = [x for x in _ast.walk(d_) if isinstance(x, _ast.Return) and x.value is not None]
+            if len(rets_) == 1 and isinstance(rets_[0].value, _ast.Call) and _ast.unparse(rets_[0].value.func).endswith("where") \
+                    and sum(1 for x in _ast.walk(rets_[0].value) if isinstance(x, _ast.Call) and _ast.unparse(x.func).endswith("where")) == 2:
+                a_, b_, c_ = [x.arg for x in d_.args.args]
+                outer, = [rets_[0].value]
+                inner = [x for x in outer.args if isinstance(x, _ast.Call)]
+                if len(outer.args) == 3 and _ast.unparse(outer.args[1]) == a_ and inner and len(inner[0].args) == 3 \
+                        and _ast.unparse(inner[0].args[1]) == b_ and _ast.unparse(inner[0].args[2]) == c_:
+                    tiebreak.add(d_.name)
+    if not tiebreak:
+        raise AnalysisError("Polyhedron.is_inside: the lexicographic tie-break helper where(a != 0, a, where(b != 0, b, c)) is not recognised")
     for n_ in _ast.walk(pfn.node):
-        if isinstance(n_, _ast.Call) and isinstance(n_.func, _ast.Name) and n_.func.id == "sign_or" and len(n_.args) == 3:
+        if isinstance(n_, _ast.Call) and isinstance(n_.func, _ast.Name) and n_.func.id in tiebreak and len(n_.args) == 3:
             letters = [_axis_of(a, pfn.node) for a in n_.args]
             if None not in letters:
                 ncalls += 1
